@@ -1,4 +1,5 @@
 import Martian.Props.C01.Facts
+import Martian.Props.C01.SemFacts
 import Martian.Props.C01.KeepAlive
 import Martian.Lemmas.Proxy
 import Martian.Lemmas.ProxyTrace
